@@ -372,7 +372,7 @@ pub fn run(ctx: &Ctx) -> PropResult {
     let out = run_workloads(ctx, wls);
     let mut meta = PropMeta::default();
     meta.rule = format!(
-        "every (type, symbol, width 1..=10) — {} combinations — against {} values each (strata: BC and 5–7 digit years, 1–3 digit years, hours 0/11/12/13/23, noon/midnight ±1 s, week 52/53/1 year edges, month ends, offsets with minutes and seconds of both signs and offsets that move the local date); random compositions of 1–8 tokens with ASCII punctuation, non-symbol letters, digits, multi-byte literals, quoted segments with doubled apostrophes and the other type's symbols. Oracle: fmt_spec, a renderer written from the documentation tables (self-checked on the documentation's examples), fed with the value's own getter values (year, month, day, day_of_year, weekday, hour … nano, get_offset; the week number, which has no getter, is what a bare `w` prints) — which date/week/weekday an instant has is C01/C02/C10's claim, how the fields are rendered is this one's. Not judged: `yy` on negative years, NUL, unterminated quotes. Every judged case is non-trivial; distinct by hash of (value, pattern). Literal alphabet incl. line ends, tab, NBSP, backslash, DEL, zero-width and combining marks and Unicode numerics that are not ASCII digits; literal runs of 200…70 000 identical characters (around 255/256 and 65 535/65 536). Call sequences: one instant under changing offsets with one pattern, one value under changing patterns, then the first call again. Offset::Local under a changing system zone: the same format/to_string call on one value carrying Offset::Local with only the hooked zone changing in between must follow the zone (compared with the Offset::Fixed twin).",
+        "every (type, symbol, width 1..=10) — {} combinations — against {} values each (strata: BC and 5–7 digit years, 1–3 digit years, hours 0/11/12/13/23, noon/midnight ±1 s, week 52/53/1 year edges, month ends, offsets with minutes and seconds of both signs and offsets that move the local date); random compositions of 1–8 tokens with ASCII punctuation, non-symbol letters, digits, multi-byte literals, quoted segments with doubled apostrophes and the other type's symbols. Oracle: fmt_spec, a renderer written from the documentation tables (self-checked on the documentation's examples), fed with the value's own getter values (year, month, day, day_of_year, weekday, hour … nano, get_offset; the week number, which has no getter, is what a bare `w` prints) — which date/week/weekday an instant has is C01/C02/C10's claim, how the fields are rendered is this one's. Not judged: `yy` on negative years, NUL, unterminated quotes. Every judged case is non-trivial; distinct by hash of (value, pattern). Literal alphabet incl. line ends, tab, NBSP, backslash, DEL, zero-width and combining marks and Unicode numerics that are not ASCII digits; literal runs of 200…70 000 identical characters (around 255/256 and 65 535/65 536). Call sequences: one instant under changing offsets with one pattern, one value under changing patterns, then the first call again. Offset::Local under a changing system zone: the same format/to_string call on one value carrying Offset::Local with only the hooked zone changing in between must follow the zone (compared with the Offset::Fixed twin). Right after a symbol run or an apostrophe the literal is sometimes the character's truncation look-alike (U+0100·k + c); literals include code points an implementation might reserve (noncharacters, private use, BOM, U+FFFD, U+10FFFF); sub-second values next to powers of ten.",
         combos.len(),
         per
     );
